@@ -221,6 +221,11 @@ def run_align(case):
             out[build] = "error:" + str(e)[:60]
     viol = []
     a, b = out["hg19"], out["hg38"]
+    # judged only if both builds call the planted structure: otherwise the alleles are fitted to a wrong copy number, thresholds
+    # become borderline and a one-read depth difference between the two simulations flips them
+    want = tuple(sorted(collections.Counter(c for c, _, maj, _ in copies if maj is not None).items()))
+    if any(isinstance(x, str) or any(s[2] != want for s in x) for x in (a, b)):
+        return Result([], labels + ["planted-structure-not-called"], False)
     if a != b:
         if isinstance(a, str) or isinstance(b, str) or [x[:3] for x in a] != [x[:3] for x in b]:
             redistribution = not isinstance(a, str) and not isinstance(b, str) and [(x[0], x[2], x[4]) for x in a] == [(x[0], x[2], x[4]) for x in b]
